@@ -128,6 +128,12 @@ def check(obs, backend):
             for i in must:
                 if i not in post:
                     deleted_must[i] = oracles.brief(E)
+            # "and nothing else": the events that stay keep every access path (tag rows / index keys)
+            from . import c17
+            for v in c17.index_entries(o, backend):
+                v["sig"] = v["sig"] + "|after-deletion"
+                v["detail"]["E"] = oracles.brief(E)
+                viol.append(v)
         elif kind == "add":
             pass
         elif kind in ("get", "query", "http"):
@@ -149,7 +155,7 @@ def check(obs, backend):
 
 
 def run(case, sim):
-    w, obs = store.run_store(sim, case["backend"], case["ops"])
+    w, obs = store.run_store(sim, case["backend"], case["ops"], full_gc=True)
     viol, nontrivial = check(obs, case["backend"])
     seen, v2 = set(), []
     for v in viol:
